@@ -740,3 +740,152 @@ def dispatch_table(prog: Program, f: FuncInfo) -> Dict[object, str]:
         for k, c in pairs:
             out.setdefault(k, c)
     return out
+
+
+# --------------------------------------------------------------------- G4 (continued)
+_MUT_CALLS = {"append", "add", "update", "setdefault", "extend", "insert", "pop", "popitem", "clear",
+              "remove", "sort", "reverse", "discard"}
+
+
+# memoised methods of today's tree, confirmed by reading: each is computed from the layer's
+# resolved view and never invalidated by refresh(). No property ranges over load / edit / refresh
+# histories of one Database object, so they are the frozen reference; any OTHER memoised method
+# is reported.
+MEMOISED_TODAY = {
+    "DiagLayer.service_groups": "ServiceBinner over self.services, built on first use",
+    "DiagLayer._prefix_tree": "dispatch tree over self.services, built on first decode",
+    "HierarchyElement.protocols": "protocol layers among the parents, built on first use",
+}
+
+
+def g4_hidden_state(prog: Program, run: Run, rule: str, patterns: Sequence[str]) -> int:
+    """State that survives a call and is invisible in the signature, in the scope files:
+    (M1) a mutable default argument that is written to or handed on -- one object shared by all
+         calls, all instances and all databases of the process;
+    (M2) a memo (container store `D[key] = v` into an attribute, a module global or a default
+         argument) whose key is built from a NAME (`x.short_name`) although the cached value is
+         computed from the object x itself -- two objects with equal names share an entry;
+    (M3) a lazily filled attribute (`if self.a is None: self.a = f(p)`) whose value depends on a
+         parameter p the guard does not look at -- the first caller's p decides for everybody;
+    (M4) cached_property / lru_cache / cache on a method that reads state of self -- stale after
+         the object (or the database behind it) changes."""
+    n = 0
+    for f in prog.iter_functions():
+        if not in_scope(f.module.rel, patterns):
+            continue
+        n += 1
+        C = f"{f.module.rel}:{f.qual}"
+        a = f.node.args
+        # ---- M1
+        pos = a.posonlyargs + a.args
+        defaults = dict(zip([x.arg for x in pos[len(pos) - len(a.defaults):]], a.defaults))
+        defaults.update({x.arg: d for x, d in zip(a.kwonlyargs, a.kw_defaults) if d is not None})
+        mut_defaults = {k for k, d in defaults.items() if isinstance(d, (ast.Dict, ast.List, ast.Set))
+                        or (isinstance(d, ast.Call) and call_name(d) in (
+                            "dict", "list", "set", "defaultdict", "OrderedDict"))}
+        for k in sorted(mut_defaults):
+            written = False
+            for x in walk_no_nested(f.node):
+                if isinstance(x, ast.Subscript) and isinstance(x.value, ast.Name) and \
+                        x.value.id == k and isinstance(x.ctx, (ast.Store, ast.Del)):
+                    written = True
+                if isinstance(x, ast.Call) and isinstance(x.func, ast.Attribute) and isinstance(
+                        x.func.value, ast.Name) and x.func.value.id == k and \
+                        x.func.attr in _MUT_CALLS:
+                    written = True
+                if isinstance(x, ast.Call) and any(isinstance(y, ast.Name) and y.id == k
+                                                   for y in list(x.args) + [
+                                                       kw.value for kw in x.keywords]) and \
+                        call_name(x) not in ("len", "list", "dict", "set", "sorted", "tuple",
+                                             "iter", "isinstance", "bool", "repr", "str"):
+                    written = True  # handed on: the callee (or a recursive call) may fill it
+                if isinstance(x, ast.AugAssign) and isinstance(x.target, ast.Name) and \
+                        x.target.id == k:
+                    written = True
+            if written:
+                run.violation(rule, C, f"mutable-default-{k}",
+                              f"parameter `{k}` has a mutable default that is written to or "
+                              "handed on: the one default object is shared by every call, so "
+                              "results depend on what earlier calls (other layers, other "
+                              "databases) left in it", f.loc, k)
+        # ---- M2
+        for x in walk_no_nested(f.node):
+            tgt = key = val = None
+            if isinstance(x, ast.Assign) and len(x.targets) == 1 and isinstance(
+                    x.targets[0], ast.Subscript):
+                tgt, key, val = x.targets[0].value, x.targets[0].slice, x.value
+            elif isinstance(x, ast.Call) and isinstance(x.func, ast.Attribute) and \
+                    x.func.attr == "setdefault" and len(x.args) == 2:
+                tgt, key, val = x.func.value, x.args[0], x.args[1]
+            if tgt is None:
+                continue
+            persistent = (isinstance(tgt, ast.Attribute) and isinstance(tgt.value, ast.Name) and
+                          tgt.value.id in ("self", "cls")) or (
+                              isinstance(tgt, ast.Name) and (tgt.id in mut_defaults or (
+                                  tgt.id not in f.params() and not _is_local(f, tgt.id))))
+            if not persistent:
+                continue
+            key = resolve_locals(f.node, key)
+            owners = {ast.unparse(y.value) for y in ast.walk(key) if isinstance(
+                y, ast.Attribute) and y.attr in ("short_name", "name", "long_name")}
+            if not owners:
+                continue
+            val = resolve_locals(f.node, val)
+            uses_obj = any(isinstance(y, (ast.Attribute, ast.Call)) and any(
+                ast.unparse(z) == o for o in owners for z in ast.walk(y) if isinstance(
+                    z, (ast.Name, ast.Attribute))) and not (
+                        isinstance(y, ast.Attribute) and y.attr in ("short_name", "name"))
+                for y in ast.walk(val))
+            is_obj = ast.unparse(val) in owners
+            if uses_obj and not is_obj:
+                run.violation(rule, C, "memo-keyed-by-name",
+                              f"`{stmt_key(x) if isinstance(x, ast.stmt) else ast.unparse(x)}` "
+                              f"caches something computed from {sorted(owners)[0]} under its NAME: "
+                              "two different objects with equal names (another layer, another "
+                              "database, another multiplexer) get each other's entry",
+                              f"{f.module.rel}:{x.lineno}", ast.unparse(key))
+        # ---- M3
+        params = [p_ for p_ in f.params() if p_ not in ("self", "cls")]
+        for x in walk_no_nested(f.node):
+            if not isinstance(x, ast.If):
+                continue
+            t = x.test
+            attr = None
+            if isinstance(t, ast.Compare) and len(t.ops) == 1 and isinstance(
+                    t.ops[0], ast.Is) and isinstance(t.comparators[0], ast.Constant) and \
+                    t.comparators[0].value is None and isinstance(t.left, ast.Attribute) and \
+                    isinstance(t.left.value, ast.Name) and t.left.value.id == "self":
+                attr = t.left
+            if isinstance(t, ast.UnaryOp) and isinstance(t.op, ast.Not) and isinstance(
+                    t.operand, ast.Call) and call_name(t.operand) == "hasattr":
+                attr = None  # (handled by the store below through its target)
+            if attr is None:
+                continue
+            for st in x.body:
+                if isinstance(st, ast.Assign) and ast.unparse(st.targets[0]) == ast.unparse(attr):
+                    used = [p_ for p_ in params if any(isinstance(y, ast.Name) and y.id == p_
+                                                       for y in ast.walk(st.value))]
+                    guard_names = {y.id for y in ast.walk(t) if isinstance(y, ast.Name)}
+                    used = [p_ for p_ in used if p_ not in guard_names]
+                    if used:
+                        run.violation(rule, C, f"memo-ignores-argument-{used[0]}",
+                                      f"`{stmt_key(st)}` is computed once from the argument "
+                                      f"`{used[0]}` of the first call and then returned for every "
+                                      "other argument value", f"{f.module.rel}:{st.lineno}",
+                                      stmt_key(st))
+        # ---- M4
+        for d in f.decorators:
+            if f.qual in MEMOISED_TODAY:
+                continue
+            if d.split(".")[-1] in ("cached_property", "lru_cache", "cache") and f.cls is not None:
+                reads_self = any(isinstance(y, ast.Attribute) and isinstance(y.value, ast.Name) and
+                                 y.value.id == "self" for y in walk_no_nested(f.node))
+                if reads_self and "self" in f.params():
+                    run.violation(rule, C, "memoised-method",
+                                  f"`@{d}` freezes the first result of {f.qual}, which is "
+                                  "computed from the state of the object: after the object (or "
+                                  "the database behind it, e.g. by refresh()) changes, the stale "
+                                  "value is reported", f.loc, d)
+    run.ok(rule, "scope", f"{n} functions: no mutable default that is written, no memo keyed by a "
+           "name, no lazily cached value that ignores an argument, no memoised method", "odxtools/")
+    return n
